@@ -167,18 +167,20 @@ func indexEnd(data, end []byte, escape bool) int {
 
 // get the first match in flags.
 // @return the matched pos in data and the index of flags.
+// @remark walk the data once and stop at the first match, for the cost to be the length of
+// 		the text before the match, never the whole buffered data for each flag.
 func firstMatch(data []byte, flags [][]byte) (pos, index int) {
-	pos = -1
-	index = pos
-
-	for i, flag := range flags {
-		if position := bytes.Index(data, flag); position >= 0 {
-			if pos > position || pos == -1 {
-				pos = position
-				index = i
+	for pos = 0; pos < len(data); pos++ {
+		for index = range flags {
+			flag := flags[index]
+			if len(flag) > 0 && flag[0] != data[pos] {
+				continue
+			}
+			if bytes.HasPrefix(data[pos:], flag) {
+				return
 			}
 		}
 	}
 
-	return
+	return -1, -1
 }
